@@ -84,6 +84,10 @@ def _jaqal_import_module_relative(mod_name, import_path):
         for part in module_heirarchy:
             submod_name = f"{submod_name}.{part}"
             module = importlib.import_module(submod_name)
+    except OSError as exc:
+        # A directory that is not a package (no __init__.py), an unreadable file
+        _forget_relative_module(top_level)
+        raise ImportError(f"Unable to load module {mod_name}: {exc}") from None
     except BaseException:
         # Leave nothing behind from a module that failed to load
         _forget_relative_module(top_level)
